@@ -386,6 +386,90 @@ void op_incl(const Step& s) {
 	if (armed("C07")) { api_end(); }
 }
 
+// ----------------------------------------------------------------- symbolic mode (symbols are sets of 16-bit codes written with don't-cares)
+// In the ordinary ("explicit") load every symbol is one complete 16-bit code, so every transition MTBDD is a bundle of
+// full-length paths.  In "symbolic" mode a rule carries a pattern over 0 / 1 / X and stands for all codes that match it:
+// the diagrams then skip variables, share sub-diagrams and meet at different levels inside every apply - the
+// representable automata C07 and C08 quantify over include these.  The reference model is the expansion: one rule per
+// matching code.  The patterns generated here fix the first thirteen positions to 0, so that at most eight codes exist.
+bool expand_patterns(const TA& in, TA& out, std::string* why) {
+	out = TA(); out.finals = in.finals;
+	for (const Rule& x : in.rules) {
+		std::vector<size_t> xs; for (size_t i = 0; i < x.sym.size(); ++i) { char ch = x.sym[i]; if (ch == 'X') xs.push_back(i); else if (ch != '0' && ch != '1') { if (why) *why = "symbol '" + x.sym + "' is not a pattern over 0 / 1 / X"; return false; } }
+		if (x.sym.size() != 16) { if (why) *why = "symbol '" + x.sym + "' does not have 16 positions"; return false; }
+		if (xs.size() > 10) { if (why) *why = "pattern '" + x.sym + "' has " + std::to_string(xs.size()) + " don't-care positions although every loaded pattern fixed thirteen of them"; return false; }
+		for (size_t m = 0; m < (size_t(1) << xs.size()); ++m) { Rule y = x; for (size_t k = 0; k < xs.size(); ++k) y.sym[xs[k]] = ((m >> k) & 1) ? '1' : '0'; out.rules.insert(y); }
+	}
+	return true;
+}
+bool read_back_sym(const BU& a, TA& out, std::string* why, std::string* text_out = nullptr) {
+	VATA::Serialization::TimbukSerializer ser; std::string text = a.DumpToString(ser, "symbolic"); if (text_out) *text_out = text;
+	mdl::Desc d; std::string err; TA pat;
+	if (!mdl::parse_timbuk_ref(text, d, &err)) { if (why) *why = "symbolic dump is not well-formed Timbuk: " + err; return false; }
+	if (!mdl::desc_to_ta(d, "", pat)) { if (why) *why = "symbolic dump uses state names that are not numbers"; return false; }
+	return expand_patterns(pat, out, why);
+}
+
+void op_sym_episode(const Step& s) {
+	size_t bar = s.lit.find(" || "); if (bar == std::string::npos) throw Skip();
+	TA la = mdl::from_lit(s.lit.substr(0, bar)), lb = mdl::from_lit(s.lit.substr(bar + 4)); Rng r(uint64_t(s.arg(0)) + 59);
+	const std::string P = g_profile;
+	VATA::Parsing::TimbukParser parser; std::string why;
+	auto load = [&](const TA& lit, BU& a, TA& model) {
+		VATA::AutBase::StateDict dict; std::string text = mdl::to_timbuk(lit, "q");
+		api_begin(); api_site("bdd_sym:load"); a.LoadFromString(parser, text, dict, "symbolic"); api_end();
+		std::map<long, long> m; for (long q : lit.states()) { auto it = dict.FindFwd("q" + std::to_string(q)); if (it != dict.EndFwd()) m[q] = long(it->second); }
+		TA pm = mdl::rename(lit, m); std::string w; if (!expand_patterns(pm, model, &w)) harness_error("generated pattern not expandable: " + w);
+	};
+	auto lang = [&](const std::string& oracle, const std::string& site, const BU& x, const TA& want, const std::string& what) {
+		TA got; std::string w; api_begin(); api_site(site + ":dump"); bool ok = read_back_sym(x, got, &w); api_end();
+		if (!ok) { violation(P + ".symbolic-dump", site, w); return; }
+		observe(got.hash());
+		lang_oracle(oracle, site, got, want, what);
+	};
+	{
+		BU a, b; TA ma, mb; load(la, a, ma); load(lb, b, mb);
+		bool c08 = armed("C08") || armed("C13"), c07 = armed("C07");
+		if (c08) { lang(P + ".load-language", "bdd_sym:load", a, ma, "symbolic load and symbolic dump"); note(ma, nullptr, 41); }
+		int acts = r.range(2, 4);
+		for (int k = 0; k < acts; ++k) {
+			switch (r.below(c07 ? 10 : 6)) {
+				case 0: { api_begin(); api_site("bdd_sym:union"); BU u = BU::Union(a, b); api_end(); if (c08) { lang("C08.union-language", "bdd_sym:union", u, mdl::unite_tagged(ma, mb), "Union of symbolically loaded automata"); note(ma, &mb, 42); } break; }
+				case 1: { api_begin(); api_site("bdd_sym:isect"); BU u = BU::Intersection(a, b); api_end(); if (c08) { lang("C08.isect-language", "bdd_sym:isect", u, mdl::isect(ma, mb), "Intersection of symbolically loaded automata"); note(ma, &mb, 43); } break; }
+				case 2: { api_begin(); api_site("bdd_sym:useless"); BU u = a.RemoveUselessStates(); api_end(); if (c08) { lang("C08.trim-language", "bdd_sym:useless", u, ma, "RemoveUselessStates of a symbolically loaded automaton"); note(ma, nullptr, 44); } break; }
+				case 3: { api_begin(); api_site("bdd_sym:unreach"); BU u = b.RemoveUnreachableStates(); api_end(); if (c08) { lang("C08.trim-language", "bdd_sym:unreach", u, mb, "RemoveUnreachableStates of a symbolically loaded automaton"); note(mb, nullptr, 45); } break; }
+				case 4: {      // dump / load / dump: what was dumped comes back
+					std::string t1, w; TA g1, g2; api_begin(); api_site("bdd_sym:redump"); bool ok = read_back_sym(a, g1, &w, &t1); BU a2; if (ok) a2.LoadFromString(parser, t1, "symbolic"); api_end();
+					if (ok && c08) { lang(P + ".dump-load-language", "bdd_sym:reload", a2, ma, "symbolic dump, load, dump"); }
+					break; }
+				case 5: { api_begin(); api_site("bdd_sym:copy-union"); BU cpy(a); BU u = BU::Union(cpy, a); api_end(); if (c08) lang("C08.union-language", "bdd_sym:copy-union", u, ma, "Union of a symbolically loaded automaton with its copy (shared table)"); break; }
+				case 6: case 7: {      // bottom-up inclusion: upward, and downward with simulation, directly or through the tool's protocol
+					long sel = r.chance(1, 2) ? 0 : 5, via = long(r.below(2)); const std::string site = std::string("bdd_sym:incl:bu:") + SELS[sel].name + (via ? ":cli" : ":api");
+					api_begin(); api_site(site, SELS[sel].down ? BUDGET_INCONCLUSIVE : BUDGET_HANG, SELS[sel].down ? 3000000 : 30000000);
+					int v = bu_incl(a, b, sel, via); observe(uint64_t(v)); judge(site, true, v, ma, mb, 300 + uint64_t(sel)); break; }
+				default: {             // top-down inclusion on the converted automata
+					long sel = 4 + long(r.below(4)); const std::string site = std::string("bdd_sym:incl:td:") + SELS[sel].name;
+					api_begin(); api_site(site, BUDGET_INCONCLUSIVE, 3000000);
+					TD ta = a.GetTopDownAut(), tb = b.GetTopDownAut();
+					int v = td_incl(ta, tb, &a, &b, sel); observe(uint64_t(v)); judge(site, true, v, ma, mb, 400 + uint64_t(sel)); break; }
+			}
+		}
+		api_begin();
+	}
+	api_end();
+	after_step(s, "bdd_sym_episode");
+}
+
+// a pair for the symbolic mode: the symbols of an ordinary pair are replaced by patterns over the last three positions
+// (drawn per symbol; patterns of different symbols may overlap, so one code can belong to several rules)
+Step sym_episode_step(Rng& r, int c, const gen::Pool& pool, int max_states) {
+	TA A, B; gen::gen_incl_pair(r, pool, max_states, false, A, B);
+	std::map<std::string, std::string> m;
+	for (const char* nm : {"a", "b", "c", "d", "e", "f", "g", "h"}) { std::string p(13, '0'); for (int i = 0; i < 3; ++i) { uint64_t x = r.below(10); p += x < 4 ? 'X' : (x < 7 ? '0' : '1'); } m[nm] = p; }
+	A = mdl::rename_syms(A, m); B = mdl::rename_syms(B, m);
+	return gen::mk(c, "bdd_sym_episode", {long(r.below(1000000))}, mdl::to_lit(A) + " || " + mdl::to_lit(B));
+}
+
 void abort_client(int c, uint64_t seed) {
 	if (size_t(c) >= g_cl.size()) return; Rng r(seed + 47); auto& v = g_cl[size_t(c)].h;
 	while (!v.empty()) { size_t i = size_t(r.below(v.size())); v.erase(v.begin() + long(i)); count(c_handles_destroyed); }
@@ -465,6 +549,7 @@ Plan plan_C07(Rng& r, const std::string&) {
 				else sel = r.below(100) < 90 ? 4 + long(r.below(4)) : long(r.below(N_SEL));
 				g.out.push_back(gen::mk(c, "bdd_incl", {bu ? abu : atd, bu ? bbu : btd, sel, bu, long(bu && r.chance(1, 10) ? 2 : r.below(2))}));
 			}
+			if (r.chance(1, 5)) g.out.push_back(sym_episode_step(r, c, pool, r.range(1, 4)));      // the same questions on automata whose symbols are sets of codes (patterns with don't-cares)
 			if (r.chance(1, 5)) {
 				// one operand OBJECT gets another value (a near relative is copy-assigned over it) and the question is asked again
 				bool bu = r.chance(1, 2); long sel = bu ? (r.chance(1, 2) ? 0 : 5) : 4 + long(r.below(4));
@@ -540,6 +625,7 @@ Plan plan_C08(Rng& r, const std::string&) {
 			}
 		}
 		if (r.chance(1, 3)) g.out.push_back(cli_step(r, c, 1 + long(r.below(2)), long(r.below(3)), mdl::to_lit(gen::gen_ta(r, pool, o)), mdl::to_lit(gen::gen_ta(r, pool, o))));      // vata -r bdd-.. load|union|isect [-p|-s]
+		if (r.chance(1, 4)) { int k = r.range(1, 2); for (int i = 0; i < k; ++i) g.out.push_back(sym_episode_step(r, c, pool, r.range(1, 4))); }      // symbolic mode: patterns with don't-cares
 		for (int i = 0; i < len; ++i) {
 			uint64_t x = r.below(100); bool bu = r.chance(1, 2);
 			if (x < 15) { o.sparse = false; g.load(gen::gen_ta(r, pool, o), bu); }
@@ -557,7 +643,7 @@ Plan plan_C08(Rng& r, const std::string&) {
 }
 
 void register_bdd_ops() {
-	register_op("bdd_load", op_load); register_op("bdd_copy", op_copy); register_op("bdd_assign", op_assign); register_op("bdd_twist", op_twist);
+	register_op("bdd_load", op_load); register_op("bdd_copy", op_copy); register_op("bdd_assign", op_assign); register_op("bdd_twist", op_twist); register_op("bdd_sym_episode", op_sym_episode);
 	register_op("bdd_move_assign", op_move_assign); register_op("bdd_move_ctor", op_move_ctor); register_op("bdd_destroy", op_destroy); register_op("bdd_final", op_final); register_op("bdd_dump", op_dump);
 	register_op("bdd_binary", op_binary); register_op("bdd_trim", op_trim); register_op("bdd_to_td", op_to_td); register_op("bdd_reindex", op_reindex);
 	register_op("bdd_incl", op_incl);
